@@ -85,7 +85,10 @@ type API struct {
 	PostWrite []func(ev *Event)
 	// PreWrite monitors run before the write is applied (under wmu); they see the authoritative state
 	// the write is about to change.
-	PreWrite  []func(verb string, obj client.Object, opts any)
+	PreWrite []func(verb string, obj client.Object, opts any)
+	// PostRead hooks run after a Karpenter get / list returned (no lock held): harness actors may change the world there,
+	// which places their action between two reads of one reconcile.
+	PostRead  []func(verb, kind, caller string)
 	tracker   vtracker
 	crashed   bool
 	KeepReads bool // record get/list events too (default: only counted)
@@ -362,6 +365,9 @@ func (a *API) ilist(ctx context.Context, c client.WithWatch, list client.ObjectL
 	}
 	err := c.List(ctx, list, opts...)
 	a.record(Event{Verb: "list", Kind: kindOf(list), Caller: caller, Stack: stack, Err: errStr(err)})
+	for _, h := range a.PostRead {
+		h("list", kindOf(list), caller)
+	}
 	return err
 }
 
